@@ -116,6 +116,47 @@ def wire_index(spec):
 	return t
 
 
+PACKED = ('array', 'hdf5')
+
+
+def dyn_index(obj):
+	"""the index object as Python and NumPy themselves describe it (isinstance / len / np.asarray): the input of the definition generated
+	from `AdvancedIndexingMixin.__getitem__`, which does the classification itself"""
+	import numpy as np
+	from collections.abc import Mapping, Set
+
+	def ndtok(a):
+		kind = a.dtype.kind
+		ln = len(a) if a.ndim >= 1 else 0
+		if a.ndim == 1 and kind in 'iu':
+			vals = ','.join(str(int(x)) for x in a) or '-'
+		elif a.ndim == 1 and kind == 'b':
+			vals = ''.join('1' if x else '0' for x in a) or '-'
+		else:
+			vals = '-'
+		return f'{a.ndim}/{kind}/{ln}/{vals}'
+	if isinstance(obj, (int, np.integer)):
+		return f'int:{int(obj)}'
+	if isinstance(obj, slice):
+		f = lambda x: '~' if x is None else (str(int(x)) if isinstance(x, (int, np.integer)) else '?')
+		return f'slice:{f(obj.start)}:{f(obj.stop)}:{f(obj.step)}'
+	if isinstance(obj, np.ndarray):
+		return 'nd:' + ndtok(obj)
+	try:
+		n = len(obj)
+	except TypeError:
+		return 'unsized'
+	special = isinstance(obj, (str, bytes, Mapping, Set))
+	try:
+		import warnings
+		with warnings.catch_warnings():
+			warnings.simplefilter('ignore')
+			tok = ndtok(np.asarray(obj))
+	except Exception:
+		tok = '!'
+	return f'sized:{n}:{int(special)}:{tok}'
+
+
 def canon(res):
 	import numpy as np
 	from gambit.sigs.base import AbstractSignatureArray
@@ -164,7 +205,11 @@ def check(ctx, case):
 			if not same:
 				pyfails.append("caller's index array was modified")
 		case['_err'] = real.startswith('err')
-		return [f'c20.get {natlists(sigs)} {wire_index(case["idx"])} {real}'], pyfails
+		lines = [f'c20.get {natlists(sigs)} {wire_index(case["idx"])} {real}']
+		if case['cont'] in PACKED and (real.startswith(('one:', 'many:')) or real in ('err:IndexError', 'err:TypeError', 'err:ValueError')):
+			# three-way: the dispatch generated from the current source, on the object as Python sees it
+			lines.append(f'pyg.getitem {natlists(sigs)} {dyn_index(idx)} {real}')
+		return lines, pyfails
 	if kind == 'bigfile':
 		# a signature file with more than 2^20 values, read through ONE handle in a given order (ints, iteration, ==, slices, arrays):
 		# every access returns what the plain list holds, whatever was read before
